@@ -154,3 +154,15 @@ W void w_pretty_nested(int32_t i, const char* p, size_t n, char* outp, size_t ca
   arena.reset(); JsonDocument doc(&arena); doc.add(i); JsonArray a = doc.add<JsonArray>(); a.add(JsonString(p, n, JsonString::Copied)); doc.add<JsonArray>();
   s->npretty = serializeJsonPretty(doc, outp, capp); s->mpretty = measureJsonPretty(doc); s->n = 0; s->measure = measureJson(doc);
 }
+// ---- sharing of equal copied strings is invisible (C14/C06): add s, add t; remove(0); the survivor keeps its bytes;
+// blocks are released exactly when the last user disappears
+struct Shr { unsigned ok, size_after, len, calls_mid, calls_end, frees_mid, frees_after_clear; unsigned char bytes[4]; };
+W void w_shared_strings(const char* s, const char* t, size_t n, Shr* o) {
+  arena.reset(); { JsonDocument doc(&arena);
+  o->ok = (doc.add(JsonString(s, n, JsonString::Copied)) ? 1 : 0) | (doc.add(JsonString(t, n, JsonString::Copied)) ? 2 : 0);
+  o->calls_mid = arena.calls;
+  doc.remove(0); o->frees_mid = arena.n_free;
+  JsonString r = doc[0].as<JsonString>(); o->len = unsigned(r.size()); for (unsigned i = 0; i < 4 && i < r.size(); i++) o->bytes[i] = (unsigned char)r.c_str()[i];
+  o->size_after = unsigned(doc.size()); o->calls_end = arena.calls; }
+  o->frees_after_clear = arena.n_free;
+}
